@@ -1325,7 +1325,12 @@ impl TheRing<'_> {
                     Ok(session_key) => {
                         skesk_session_keys.push((i, session_key));
                         result.message_password[i] = InnerRingResult::Ok;
-                        break;
+                        // when all secrets are to be cross-checked, later passwords must still be
+                        // tried on this ESK (a v4 SKESK without encrypted session key "opens" for
+                        // every password)
+                        if abort_early {
+                            break;
+                        }
                     }
                     Err(_err) => {
                         result.message_password[i] = InnerRingResult::Invalid;
